@@ -874,6 +874,48 @@ def large_set_case(numscat, c_order):
     return name, why, idx[-1].size
 
 
+# 4c. several Path objects that describe the SAME path (same interfaces, materials, modes: a copy kept by another view,
+#     the same path built twice) traced in ONE call together with their mode-converted siblings: every Path object ends
+#     with the rays of ITS OWN velocities (rays.fermat_path, sum leg/velocity == times)
+import copy as _copy
+for t in range(3 if Q else 20):
+    setup = arimgen.immersion_setup(rng, max_refl=int(rng.integers(0, 2)), wall_points=int(rng.integers(30, 90)), trace=False)
+    base = list(setup["paths"].items())
+    lst = []
+    for name, pth in base:
+        lst.append((name, pth))
+        if rng.random() < 0.5:
+            twin = _copy.copy(pth) if rng.random() < 0.5 else arim.Path(pth.interfaces, pth.materials, pth.modes, name=pth.name + " (again)")
+            twin.rays = None
+            lst.append((name + "#twin", twin))
+    order = rng.permutation(len(lst))
+    lst = [lst[i] for i in order]
+    if not any(n.endswith("#twin") for n, _ in lst):
+        continue
+    arim.ray.ray_tracing_for_paths([pth for _, pth in lst])
+    evaluations += len(lst)
+    stats["twin_paths"] = stats.get("twin_paths", 0) + len(lst)
+    for name, pth in lst:
+        why = None
+        if pth.rays is None:
+            why = "Path.rays is None after ray_tracing_for_paths"
+        elif pth.rays.fermat_path != pth.to_fermat_path():
+            why = "Path.rays.fermat_path is not the path's own to_fermat_path() (rays of another path)"
+        else:
+            rg = arim.ray.RayGeometry.from_path(pth)
+            tot = 0.0
+            for k in range(1, len(pth.interfaces)):
+                tot = tot + np.asarray(rg.inc_leg_size(k)) / float(pth.velocities[k - 1])
+            if not np.allclose(tot, np.asarray(pth.rays.times), rtol=1e-11, atol=0):
+                why = "sum of inc_leg_size(k)/velocity differs from rays.times"
+        if why:
+            chk.violation("spec:twin_paths", f"path {name} traced in one call with an equal Path object: {why}",
+                          dict(path=name, call_order=[n for n, _ in lst], velocities=[float(v) for v in pth.velocities],
+                               how="arimgen.immersion_setup(trace=False); equal Path objects (copy.copy / built again) appended; "
+                                   "one arim.ray.ray_tracing_for_paths call; seed and tier replay it"))
+            break
+samples.append({"twin paths": f"{stats.get('twin_paths', 0)} Path objects traced in calls that contain equal Path objects"})
+
 NLARGE = 1 if Q else 4
 nl = 0
 for t in range(NLARGE):
